@@ -234,6 +234,7 @@ void FsDropInService::processDropInRemove(const std::string& file) {
   }
 
   OLOG << "Removing drop in config=" << file;
+  seen_files_.erase(file);
   scheduleDropInRemove(file);
 }
 
@@ -244,6 +245,7 @@ void FsDropInService::processDropInAdd(const std::string& file) {
   }
 
   OLOG << "Adding drop in config=" << file;
+  seen_files_.insert(file);
 
   std::ifstream dropin_file(drop_in_dir_ + '/' + file, std::ios::in);
   if (!dropin_file.is_open()) {
@@ -279,6 +281,25 @@ void FsDropInService::processDropInAdd(const std::string& file) {
   }
 }
 
+// The kernel dropped events (IN_Q_OVERFLOW): we no longer know what happened
+// to which file. Forget every file that is gone and reload the ones present.
+void FsDropInService::resyncDropInDir() {
+  OLOG << "inotify queue overflowed, rescanning " << drop_in_dir_;
+  std::set<std::string> present;
+  if (auto de = Fs::readDir(drop_in_dir_, Fs::DE_FILE)) {
+    present.insert(de->files.begin(), de->files.end());
+  }
+  const auto seen = seen_files_;
+  for (const auto& file : seen) {
+    if (!present.count(file)) {
+      processDropInRemove(file);
+    }
+  }
+  for (const auto& file : present) {
+    processDropInAdd(file);
+  }
+}
+
 int FsDropInService::processDropInWatcher(int fd) {
   const struct inotify_event* event;
   alignas(struct inotify_event) std::array<char, 4096> buf;
@@ -298,7 +319,9 @@ int FsDropInService::processDropInWatcher(int fd) {
          ptr += sizeof(struct inotify_event) + event->len) {
       event = reinterpret_cast<const struct inotify_event*>(ptr);
 
-      if (event->mask & (IN_MOVED_TO | IN_MODIFY)) {
+      if (event->mask & IN_Q_OVERFLOW) {
+        resyncDropInDir();
+      } else if (event->mask & (IN_MOVED_TO | IN_MODIFY)) {
         // Remove and re-add drop in if a file has been added to the
         // watched directory
         processDropInAdd(event->name);
